@@ -218,6 +218,23 @@ Theorem nested_views_compose : forall f u cvs r g p,
 Proof. exact IterProofs.nested_views. Qed.
 Print Assumptions nested_views_compose.
 
+(*    The hypotheses of reverse_view, enumerate_view and nested_views_compose hold together, e.g. for an
+      Array of six items and the range (0, 6, 2); and a view of a view satisfies them again (composition). *)
+Example views_hypotheses_nonvacuous :
+  let xs := map VInt [1; 2; 3; 4; 5; 6] in let u := IArray xs in let cvs := chain_from 0 xs in
+  wb 6 u cvs /\ it_len repaired u = OVal (zlen cvs) /\ item_len_of 6 u = OVal (zlen cvs) /\ zlen cvs < box /\
+  slice_ok (mkRng 0 6 2) (zlen cvs) /\ (length cvs <= 6)%nat /\
+  wb 6 (IMap (fun_of 1) (ISlice u (mkRng 0 6 2))) (map_chain (fun_of 1) (slice_chain (mkRng 0 6 2) cvs)) /\
+  map snd (map_chain (fun_of 1) (slice_chain (mkRng 0 6 2) cvs)) = map VInt [101; 103; 105].
+Proof.
+  cbn zeta.
+  assert (Hok : slice_ok (mkRng 0 6 2) (zlen (chain_from 0 (map VInt [1; 2; 3; 4; 5; 6]))))
+    by (unfold slice_ok, in_box, box; cbn; repeat split; try reflexivity; discriminate).
+  split; [apply IterProofs.wb_array|]. split; [reflexivity|]. split; [reflexivity|]. split; [reflexivity|].
+  split; [exact Hok|]. split; [cbn; repeat constructor|]. split; [|reflexivity].
+  apply IterProofs.wb_map, IterProofs.wb_slice; [apply IterProofs.wb_array | reflexivity | exact Hok].
+Qed.
+
 (* 7. The pre-repair texts are refuted (one rules record per defect, everything else repaired). *)
 Theorem array_prev_refuted : exists xs, snd (walk pre_D9 10 Bwd 10 (IArray xs)) = WCrash.
 Proof. exact IterProofs.array_prev_refuted. Qed.
